@@ -78,3 +78,21 @@ pub fn hash(data: &str, algorithm: PersistedDocumentsHashAlgorithm) -> String {
         }
     }
 }
+
+/// The (pretty) query text is embedded in a single-quoted JavaScript string whose lines
+/// end in `\` + line break continuations. Anything else in the text that is special in
+/// such a string (a single quote or a backslash inside a string argument) has to be
+/// escaped, or the artifact is not valid JavaScript or sends a different query.
+pub(crate) fn query_text_module_content(query_text: &str) -> String {
+    let mut escaped = String::with_capacity(query_text.len());
+    let mut chars = query_text.chars().peekable();
+    while let Some(c) = chars.next() {
+        match c {
+            '\\' if chars.peek() == Some(&'\n') => escaped.push('\\'),
+            '\\' => escaped.push_str("\\\\"),
+            '\'' => escaped.push_str("\\'"),
+            c => escaped.push(c),
+        }
+    }
+    format!("export default '{escaped}';")
+}
